@@ -189,6 +189,35 @@ def check_timeout(facts, body, add):
     return n
 
 
+def depth_tests(facts, rep, bodies):
+    """R27d: every test of an instance's sample count against the KEEP_LAST depth admits len == depth
+    (the history is full when it holds `depth` samples; `>` would let it grow to depth+1)."""
+    n = 0
+    from vplib.flow import SWAP
+    for b in bodies:
+        for x in [b] + facts.descendants(b):
+            fc = FnCtx(x)
+            for bb, ce in fc.ces.items():
+                c = cmp_norm(ce.expr)
+                if c is None:
+                    continue
+                op, a, d = c
+                la, ld = E.mentions_call(a, "VecDeque::len"), E.mentions_call(d, "VecDeque::len")
+                da = E.mentions_local_named(fc.mir, a, "depth") or E.mentions_field(a, "depth") or E.mentions_field(a, "as KeepLast")
+                dd = E.mentions_local_named(fc.mir, d, "depth") or E.mentions_field(d, "depth") or E.mentions_field(d, "as KeepLast")
+                if la and dd and not ld:
+                    pass
+                elif ld and da and not la:
+                    op = SWAP[op]
+                else:
+                    continue
+                n += 1
+                rep.add("R27d", x.sname, "history-full test is `len == depth` (or >=)", op in ("Eq", "Ge"),
+                        "samples.len() %s depth: the oldest sample is not evicted when the history holds exactly depth samples" % op,
+                        x.loc(fc.mir.blocks[bb].term.line))
+    return n
+
+
 def run(ctx, rep):
     fx = ctx.facts
     b1 = fx.fn("DcpsDomainParticipant", "write_w_timestamp")
@@ -197,6 +226,12 @@ def run(ctx, rep):
     n2, r2, w2 = check_write_path(fx, b2, adder(rep, b2))
     rep.floor("R27a", r1 + r2, 2, "remove_change call sites on the write path")
     rep.floor("R27b", w1 + w2, 2, "DataWriterEntity::write_w_timestamp call sites")
+    from rules import rtps_core as R
+    hb = fx.fn("RtpsStatefulWriter", "on_acknack_submessage_received")
+    na = R.acknack_handler(hb, adder(rep, hb))
+    rep.floor("R01d", na, 4, "ACKNACK handler state updates (acknowledged = base - 1)")
+    nd = depth_tests(fx, rep, [b1, b2])
+    rep.floor("R27d", nd, 3, "samples.len() vs depth comparisons on the write path")
     n3 = check_blocked(fx, b1, adder(rep, b1))
     rep.floor("R27b-pending", n3, 1, "PendingWriteSample constructions")
     b3 = fx.fn("DcpsDomainParticipant", "check_pending_writer_sample_timeout")
